@@ -4,12 +4,8 @@ from props import c15
 from mc import par
 import pyiga.mlmatrix, scipy.sparse
 g,mlc=c15.ml_cases("quick",0)
-sub=[c for c in mlc if c["group"]=="L3:mixed-rectangular" and c15.needs_sandbox(c)][:960]
-def ru(): 
-    r=resource.getrusage(resource.RUSAGE_CHILDREN); return r.ru_utime, r.ru_stime
-def inproc(c): return c15._check_counted(c)
-if len(sys.argv)>1: gc.collect(); gc.freeze()
-for name,fn,items,kw in (("inproc",inproc,sub,{}),("batch32",c15._batch_worker,[sub[i:i+32] for i in range(0,len(sub),32)],dict(chunk=1,min_parallel=2)),("percase",c15._worker,sub[:320],{})):
-    t=time.time(); a=ru()
-    par.pmap(fn,items,**kw)
-    b=ru(); print(name,"wall %.1f user %.1f sys %.1f"%(time.time()-t,b[0]-a[0],b[1]-a[1]))
+sub=[c for c in mlc if c["group"]=="L4:2x2-first-nonzero-cover"]
+gc.collect(); gc.freeze()
+t=time.time()
+par.pmap(c15._worker,sub,workers=8,chunk=48)
+print("wall",time.time()-t)
